@@ -37,6 +37,7 @@ static Ex pExpr(const Toks &t, size_t &i)
 	else if (e.op == "and" || e.op == "or" || e.op == "xor" || e.op == "add" || e.op == "eq") { e.kids.push_back(pExpr(t, i)); e.kids.push_back(pExpr(t, i)); }
 	else if (e.op == "sl") { e.kids.push_back(pExpr(t, i)); e.a = atoi(t.at(i++).c_str()); e.b = atoi(t.at(i++).c_str()); }
 	else if (e.op == "bit") { e.kids.push_back(pExpr(t, i)); e.a = atoi(t.at(i++).c_str()); }
+	else if (e.op == "dsl" || e.op == "dbit" || e.op == "dpart") { e.a = atoi(t.at(i++).c_str()); e.b = atoi(t.at(i++).c_str()); e.kids.push_back(pExpr(t, i)); e.kids.push_back(pExpr(t, i)); }
 	else die("expr token " + e.op);
 	return e;
 }
@@ -98,6 +99,17 @@ struct Builder {
 
 	Var *find(int id) { for (size_t i = vars.size(); i-- > 0;) if (vars[i].id == id) return &vars[i]; return nullptr; }
 
+	// A bare variable reference used as the base or the index of a dynamic access is the C++ variable
+	// itself (v[i], not v[copy of i]): the alias constructor must take the index's value at this program
+	// point even if the variable is assigned again later.
+	UInt *vecOperand(const Ex &e, Val &holder)
+	{
+		if (e.op == "s") { Var *v = find(e.a); if (v && v->u) return v->u.get(); }
+		holder = eval(e);
+		if (!holder.u) die("dynamic access needs UInt operands");
+		return holder.u.get();
+	}
+
 	Val eval(const Ex &e)
 	{
 		Val r;
@@ -137,6 +149,13 @@ struct Builder {
 			Val a = eval(e.kids[0]);
 			Bit &al = (*a.u)[(size_t)e.a];
 			r.b.reset(new Bit(al));
+		} else if (e.op == "dsl" || e.op == "dbit" || e.op == "dpart") {
+			Val ha, hi;
+			UInt *a = vecOperand(e.kids[0], ha);
+			UInt *i = vecOperand(e.kids[1], hi);
+			if (e.op == "dsl") { UInt &al = (*a)(*i, BitWidth((uint64_t)e.b)); r.u.reset(new UInt(al)); }
+			else if (e.op == "dbit") { Bit &al = (*a)[*i]; r.b.reset(new Bit(al)); }
+			else { UInt &al = a->part((size_t)e.a, *i); r.u.reset(new UInt(al)); }
 		} else die("eval " + e.op);
 		return r;
 	}
@@ -161,8 +180,9 @@ struct Builder {
 		} break;
 		case 'A': {
 			Val rhs = eval(s.e);
-			std::vector<Val> idx;
-			for (const Sel &p : s.path) idx.push_back((p.kind[0] == 'd') ? eval(p.idx) : Val{});
+			std::vector<Val> idxHold(s.path.size());
+			std::vector<UInt*> idx(s.path.size(), nullptr);
+			for (size_t k = 0; k < s.path.size(); k++) if (s.path[k].kind[0] == 'd') idx[k] = vecOperand(s.path[k].idx, idxHold[k]);
 			Var *v = find(s.x); if (!v) die("unknown signal in assignment");
 			if (v->b) { const Bit &rv = *rhs.b; *v->b = rv; break; }
 			UInt *cur = v->u.get(); Bit *bit = nullptr;
@@ -170,9 +190,9 @@ struct Builder {
 				const Sel &p = s.path[k];
 				if (p.kind == "st") cur = &(*cur)((size_t)p.a, BitWidth((uint64_t)p.b));
 				else if (p.kind == "sb") bit = &(*cur)[(size_t)p.a];
-				else if (p.kind == "ds") cur = &(*cur)(*idx[k].u, BitWidth((uint64_t)p.b));
-				else if (p.kind == "db") bit = &(*cur)[*idx[k].u];
-				else if (p.kind == "dp") cur = &cur->part((size_t)p.a, *idx[k].u);
+				else if (p.kind == "ds") cur = &(*cur)(*idx[k], BitWidth((uint64_t)p.b));
+				else if (p.kind == "db") bit = &(*cur)[*idx[k]];
+				else if (p.kind == "dp") cur = &cur->part((size_t)p.a, *idx[k]);
 			}
 			if (bit) { const Bit &rv = *rhs.b; *bit = rv; } else { const UInt &rv = *rhs.u; *cur = rv; }
 		} break;
@@ -237,6 +257,17 @@ struct Oracle {
 		if (e.op == "eq") { OV a = ev(e.kids[0]), b = ev(e.kids[1]); return OV{a.v == b.v ? 1ull : 0ull, 1}; }
 		if (e.op == "sl") { OV a = ev(e.kids[0]); if (e.a + e.b > a.w) throw Undef(); return OV{(a.v >> e.a) & mask(e.b), e.b}; }
 		if (e.op == "bit") { OV a = ev(e.kids[0]); if (e.a >= a.w) throw Undef(); return OV{(a.v >> e.a) & 1, 1}; }
+		if (e.op == "dsl" || e.op == "dbit" || e.op == "dpart") {
+			OV a = ev(e.kids[0]), i = ev(e.kids[1]);
+			uint64_t maxi; int mul, w;
+			if (e.op == "dsl") { maxi = (1ull << e.a) - 1; mul = 1; w = e.b; }
+			else if (e.op == "dbit") { maxi = std::min<uint64_t>(a.w - 1, (1ull << e.a) - 1); mul = 1; w = 1; }
+			else { int partW = a.w / e.a; maxi = e.a - 1; mul = partW; w = partW; }
+			if (i.v > maxi) throw Undef();
+			int off = (int)i.v * mul;
+			if (off + w > a.w) throw Undef();          // bits beyond the vector read as undefined
+			return OV{(a.v >> off) & mask(w), w};
+		}
 		die("oracle ev " + e.op);
 	}
 
